@@ -7,7 +7,7 @@
    Objects: ints as atoms, doubles as (num den) or () for NA, strings as lists of character codes. *)
 From Coq Require Import Ascii String.
 From Coq Require Import List ZArith QArith Bool.
-From Gst Require Import lib.Sx C08.Codec C08.Model.
+From Gst Require Import lib.Sx C08.Codec C08.Model C08.Model_db C08.Model_vario C08.Model_model.
 Import ListNotations.
 Local Open Scope string_scope.
 Local Open Scope list_scope.
@@ -102,12 +102,95 @@ Definition dec_hermite (s : sx) : option anam_hermite :=
   | _ => None
   end.
 
+
+(* Db, DbGrid *)
+Definition enc_lc (l : lc) : sx := match l with None => L [] | Some (t, i) => L [I (Z.of_nat t); I i] end.
+Definition dec_lc (s : sx) : option lc :=
+  match s with L [] => Some None | L [I t; I i] => if t <? 0 then None else Some (Some (Z.to_nat t, i)) | _ => None end.
+Definition enc_db (o : db) : sx :=
+  L [I (db_nech o); ofList ofW (db_names o); ofList enc_lc (db_locs o); ofList (ofList ofD) (db_rows o)].
+Definition dec_db (s : sx) : option db :=
+  match s with
+  | L [I n; names; locs; rows] =>
+      names' <-? asListOf asW names ;; locs' <-? asListOf dec_lc locs ;; rows' <-? asListOf (asListOf asD) rows ;;
+      Some {| db_nech := n; db_names := names'; db_locs := locs'; db_rows := rows' |}
+  | _ => None
+  end.
+Definition enc_gdim (g : gdim) : sx := L [I (g_nx g); ofD (g_x0 g); ofD (g_dx g); ofD (g_angle g)].
+Definition dec_gdim (s : sx) : option gdim :=
+  match s with
+  | L [I nx; x0; dx; an] => x0' <-? asD x0 ;; dx' <-? asD dx ;; an' <-? asD an ;;
+                            Some {| g_nx := nx; g_x0 := x0'; g_dx := dx'; g_angle := an' |}
+  | _ => None
+  end.
+Definition enc_dbgrid (o : dbgrid) : sx := L [ofList enc_gdim (dg_dims o); enc_db (dg_db o)].
+Definition dec_dbgrid (s : sx) : option dbgrid :=
+  match s with
+  | L [ds; d] => ds' <-? asListOf dec_gdim ds ;; d' <-? dec_db d ;; Some {| dg_dims := ds'; dg_db := d' |}
+  | _ => None
+  end.
+
+(* Vario *)
+Definition enc_triple (t : triple) : sx := let '(a, b, c) := t in L [ofD a; ofD b; ofD c].
+Definition dec_triple (s : sx) : option triple :=
+  match s with L [a; b; c] => a' <-? asD a ;; b' <-? asD b ;; c' <-? asD c ;; Some (a', b', c') | _ => None end.
+Definition enc_vdir (d : vdir) : sx :=
+  L [ofB (vd_regular d); I (vd_npas d); I (vd_optcode d); ofD (vd_tolcode d); ofD (vd_dpas d); ofD (vd_toldist d);
+     ofList ofZ (vd_grincr d); ofD (vd_tolang d); ofList ofD (vd_codir d); ofList enc_triple (vd_res d)].
+Definition dec_vdir (s : sx) : option vdir :=
+  match s with
+  | L [rg; I npas; I oc; tc; dp; td; gi; ta; cd; rs] =>
+      rg' <-? asB rg ;; tc' <-? asD tc ;; dp' <-? asD dp ;; td' <-? asD td ;; gi' <-? asListOf asZ gi ;;
+      ta' <-? asD ta ;; cd' <-? asListOf asD cd ;; rs' <-? asListOf dec_triple rs ;;
+      Some {| vd_regular := rg'; vd_npas := npas; vd_optcode := oc; vd_tolcode := tc'; vd_dpas := dp'; vd_toldist := td';
+              vd_grincr := gi'; vd_tolang := ta'; vd_codir := cd'; vd_res := rs' |}
+  | _ => None
+  end.
+Definition enc_vario (o : vario) : sx :=
+  L [I (vr_ndim o); I (vr_nvar o); ofD (vr_scale o); ofB (vr_asym o); ofList ofW (vr_names o);
+     ofList (ofList ofD) (vr_vars o); ofList enc_vdir (vr_dirs o)].
+Definition dec_vario (s : sx) : option vario :=
+  match s with
+  | L [I nd; I nv; sc; asy; names; vars; dirs] =>
+      sc' <-? asD sc ;; asy' <-? asB asy ;; names' <-? asListOf asW names ;; vars' <-? asListOf (asListOf asD) vars ;;
+      dirs' <-? asListOf dec_vdir dirs ;;
+      Some {| vr_ndim := nd; vr_nvar := nv; vr_scale := sc'; vr_asym := asy'; vr_names := names'; vr_vars := vars'; vr_dirs := dirs' |}
+  | _ => None
+  end.
+
+(* Model *)
+Definition enc_cova (c : cova) : sx :=
+  L [I (cv_type c); ofD (cv_param c); ofList ofD (cv_ranges c); ofList ofD (cv_rotmat c); ofList (ofList ofD) (cv_sill c)].
+Definition dec_cova (s : sx) : option cova :=
+  match s with
+  | L [I t; p; rs; rm; sl] =>
+      p' <-? asD p ;; rs' <-? asListOf asD rs ;; rm' <-? asListOf asD rm ;; sl' <-? asListOf (asListOf asD) sl ;;
+      Some {| cv_type := t; cv_param := p'; cv_ranges := rs'; cv_rotmat := rm'; cv_sill := sl' |}
+  | _ => None
+  end.
+Definition enc_model (o : model) : sx :=
+  L [I (md_ndim o); I (md_nvar o); ofD (md_field o); ofList enc_cova (md_covs o); ofList ofW (md_drifts o);
+     ofList ofD (md_means o); ofList (ofList ofD) (md_covar0 o)].
+Definition dec_model (s : sx) : option model :=
+  match s with
+  | L [I nd; I nv; f; cs; dr; ms; c0] =>
+      f' <-? asD f ;; cs' <-? asListOf dec_cova cs ;; dr' <-? asListOf asW dr ;; ms' <-? asListOf asD ms ;;
+      c0' <-? asListOf (asListOf asD) c0 ;;
+      Some {| md_ndim := nd; md_nvar := nv; md_field := f'; md_covs := cs'; md_drifts := dr'; md_means := ms'; md_covar0 := c0' |}
+  | _ => None
+  end.
+(* oracle table ((type hasRange hasParam) ...) *)
+Definition table_lookup (tbl : list (Z * bool * bool)) (sel : Z * bool * bool -> bool) (t : Z) : bool :=
+  match find (fun e => fst (fst e) =? t) tbl with Some e => sel e | None => false end.
+Definition dec_table3 (s : sx) : option (list (Z * bool * bool)) :=
+  asListOf (fun e => match e with L [I t; r; p] => r' <-? asB r ;; p' <-? asB p ;; Some (t, r', p') | _ => None end) s.
+
 (* ---------------------------------------------------------------- class table *)
 Record cls := {
   c_T : Type; c_tag : string; c_ser : c_T -> list record; c_deser : reader c_T;
   c_enc : c_T -> sx; c_dec : sx -> option c_T }.
 
-Definition classes (id : Z) : option cls :=
+Definition classes (id : Z) (aux : sx) : option cls :=
   match id with
   | 1 => Some {| c_tag := "NeighUnique"; c_ser := ser_NeighUnique; c_deser := deser_NeighUnique; c_enc := enc_aneigh; c_dec := dec_aneigh |}
   | 2 => Some {| c_tag := "NeighBench"; c_ser := ser_NeighBench; c_deser := deser_NeighBench; c_enc := enc_bench; c_dec := dec_bench |}
@@ -118,6 +201,16 @@ Definition classes (id : Z) : option cls :=
   | 7 => Some {| c_tag := "PolyElem"; c_ser := ser_PolyElem; c_deser := deser_PolyElem; c_enc := enc_pe; c_dec := dec_pe |}
   | 8 => Some {| c_tag := "Polygon"; c_ser := ser_Polygons; c_deser := deser_Polygons; c_enc := ofList enc_pe; c_dec := asListOf dec_pe |}
   | 9 => Some {| c_tag := "AnamHermite"; c_ser := ser_AnamHermite; c_deser := deser_AnamHermite; c_enc := enc_hermite; c_dec := dec_hermite |}
+  | 10 => Some {| c_tag := "Db"; c_ser := ser_Db; c_deser := deser_Db; c_enc := enc_db; c_dec := dec_db |}
+  | 11 => Some {| c_tag := "DbGrid"; c_ser := ser_DbGrid; c_deser := deser_DbGrid; c_enc := enc_dbgrid; c_dec := dec_dbgrid |}
+  | 12 => Some {| c_tag := "Vario"; c_ser := ser_Vario; c_deser := deser_Vario; c_enc := enc_vario; c_dec := dec_vario |}
+  | 13 => match dec_table3 aux with
+          | Some tbl =>
+              let hr := table_lookup tbl (fun e => snd (fst e)) in
+              let hp := table_lookup tbl (fun e => snd e) in
+              Some {| c_tag := "Model"; c_ser := ser_Model; c_deser := deser_Model hr hp; c_enc := enc_model; c_dec := dec_model |}
+          | None => None
+          end
   | _ => None
   end.
 
@@ -142,13 +235,13 @@ Definition run_write (c : cls) (s : sx) : sx :=
 
 Definition run (c : sx) : sx :=
   match c with
-  | L [I 1; I id; chars] =>
-      match classes id, asW chars with
+  | L [I 1; I id; chars; aux] =>
+      match classes id aux, asW chars with
       | Some cl, Some w => run_parse cl w
       | _, _ => sx_error 1
       end
-  | L [I 2; I id; o] =>
-      match classes id with
+  | L [I 2; I id; o; aux] =>
+      match classes id aux with
       | Some cl => run_write cl o
       | None => sx_error 1
       end
